@@ -32,8 +32,6 @@ use air_interpreter_signatures::SignatureStore;
 use std::collections::HashMap;
 use std::rc::Rc;
 
-const CANNOT_HAPPEN_IN_VERIFIED_CID_STORE: &str = "cannot happen in a checked CID store";
-
 /// An util for verificating particular data's signatures.
 pub struct DataVerifier<'data> {
     // a map from peer_id to peer's info (public key, signature, CIDS)
@@ -164,14 +162,21 @@ fn collect_peers_cids_from_trace<'data>(
                 let cid = call.get_cid();
                 if let Some(cid) = cid {
                     // TODO refactor
-                    let service_result = cid_info
-                        .service_result_store
-                        .get(cid)
-                        .expect(CANNOT_HAPPEN_IN_VERIFIED_CID_STORE);
+                    // CidInfo::verify checks references between the stores only;
+                    // references from the trace into the stores are checked here
+                    let service_result = cid_info.service_result_store.get(cid).ok_or_else(|| {
+                        DataVerifierError::MissingCidReference {
+                            store: "service result",
+                            cid: cid.get_inner(),
+                        }
+                    })?;
                     let tetraplet = cid_info
                         .tetraplet_store
                         .get(&service_result.tetraplet_cid)
-                        .expect(CANNOT_HAPPEN_IN_VERIFIED_CID_STORE);
+                        .ok_or_else(|| DataVerifierError::MissingCidReference {
+                            store: "tetraplet",
+                            cid: service_result.tetraplet_cid.get_inner(),
+                        })?;
 
                     let peer_pk = tetraplet.peer_pk.as_str();
                     try_push_cid(grouped_cids, peer_pk, cid)?;
@@ -179,14 +184,19 @@ fn collect_peers_cids_from_trace<'data>(
             }
             ExecutedState::Canon(CanonResult::Executed(ref cid)) => {
                 // TODO refactor
-                let canon_result = cid_info
-                    .canon_result_store
-                    .get(cid)
-                    .expect(CANNOT_HAPPEN_IN_VERIFIED_CID_STORE);
+                let canon_result = cid_info.canon_result_store.get(cid).ok_or_else(|| {
+                    DataVerifierError::MissingCidReference {
+                        store: "canon result",
+                        cid: cid.get_inner(),
+                    }
+                })?;
                 let tetraplet = cid_info
                     .tetraplet_store
                     .get(&canon_result.tetraplet)
-                    .expect(CANNOT_HAPPEN_IN_VERIFIED_CID_STORE);
+                    .ok_or_else(|| DataVerifierError::MissingCidReference {
+                        store: "tetraplet",
+                        cid: canon_result.tetraplet.get_inner(),
+                    })?;
 
                 let peer_pk = tetraplet.peer_pk.as_str();
                 try_push_cid(grouped_cids, peer_pk, cid)?;
